@@ -596,7 +596,7 @@ def run(check):
         # (M) runs in the background while the jobs that do not depend on it execute
         f_sweep = pool.submit(tlc_bg, check, "MemSafe",
                               memsafe_cfg(NMAX, SCRATCH, MINMDS, stride, check.seed % stride, "FALSE",
-                                          pns="{2, 4}" if quick else "{1, 2, 3, 4}"), "MemSafe_sweep", 8)
+                                          pns="{2}" if quick else "{1, 2, 3, 4}"), "MemSafe_sweep", 8)
         f_small = pool.submit(tlc_bg, check, "MemSafe", memsafe_cfg(n2, 48, 40, 1, 0, "TRUE", emit=False),
                               "MemSafe_range_records", 4)
         f_buf = pool.submit(tlc_bg, check, "BufferModel",
